@@ -278,7 +278,9 @@ def corpus_source(rel):
 def job_source(job):
     if job.get('raw') is not None:
         body = ' '.join('%s fz%d' % (t, k) for k, t in enumerate(job['raw']))
-        return '\\documentclass{%s}\n\\begin{document}\n\\section{Fz}\\label{fzl1}\n%s\n\\end{document}\n' % (job.get('cls', 'article'), body)
+        use = ''.join('\\usepackage%s{%s}\n' % ({'babel': '[french]', 'inputenc': '[utf8]', 'fontenc': '[T1]', 'geometry': '[margin=1in]'}.get(q, ''), q)
+                      for q in job.get('packages', []))
+        return '\\documentclass{%s}\n%s\\begin{document}\n\\section{Fz}\\label{fzl1}\n%s\n\\end{document}\n' % (job.get('cls', 'article'), use, body)
     if job.get('corpus'):
         return corpus_source(job['corpus']) or '\\documentclass{article}\\begin{document}missing corpus file\\end{document}\n'
     lines = ['\\documentclass{%s}' % job['cls']]
@@ -355,10 +357,17 @@ def generate(seed, tier):
         # macro-fuzz mode: every job is a bag of generic invocations of the user-level macros of plasTeX.Base.LaTeX
         # (sim/macrofuzz.py); the record carries the generated LaTeX text itself
         rm = R('macrofuzz')
+        base = [e for e in MACROFUZZ if e[4] is None]
+        bypkg = {}
+        for e in MACROFUZZ:
+            if e[4] is not None:
+                bypkg.setdefault(e[4], []).append(e)
         for op in ops:
-            op['raw'] = [rm.choice(MACROFUZZ)[1] for _ in range(rm.randint(3, 12))]
+            pk = rm.sample(sorted(bypkg), rm.choice([0, 0, 1, 1, 2]))
+            pool = [e for q in pk for e in bypkg[q]]
+            op['raw'] = [(rm.choice(pool) if pool and rm.random() < 0.5 else rm.choice(base))[1] for _ in range(rm.randint(3, 12))]
             op['blocks'] = []
-            op['packages'] = []
+            op['packages'] = pk
             op['cut'] = None
     elif r.random() < 0.35 and len(ops) >= 2:
         # paired mode: the last job and one earlier job are built around ONE state family - the earlier one writes it,
@@ -657,7 +666,7 @@ def prepare():
     global MACROFUZZ
     if not MACROFUZZ:
         from .. import macrofuzz
-        MACROFUZZ = macrofuzz.build()
+        MACROFUZZ = macrofuzz.build(PACKAGES)
 
 
 def enumerate_cases(base_seed, tier):
